@@ -30,6 +30,17 @@ func (*SignalHandler).shutdown
       (forall k in 0..len(h.services) - 1 - i: evres("github.com/AdguardTeam/golibs/service.Shutdowner.Shutdown", old(events()) + k, 0) == nil))
     decreases i + 1
 
+// Add: the new services are appended in order to the handler's own list,
+// which shares no memory with the caller's argument slice.
+func (*SignalHandler).Add
+  requires h != nil
+  requires own_list: isnil(h.services) || ref(h.services) != ref(svcs)
+  modifies h.services, backing(h.services)
+  ensures appended: len(h.services) == old(len(h.services)) + len(svcs) &&
+    (forall k in 0..old(len(h.services)): h.services[k] == old(h.services[k])) &&
+    (forall k in 0..len(svcs): h.services[old(len(h.services)) + k] == svcs[k])
+  ensures own_storage: len(svcs) > 0 ==> ref(h.services) != ref(svcs)
+
 // Handle: signals that are not shutdown signals are ignored (no service is
 // touched); the first shutdown signal runs shutdown once and its status is
 // returned.  A panic raised by a service is recovered by the deferred
